@@ -6,11 +6,13 @@ import Ymq.Props.C13Log
 #print axioms Ymq.C13.accumulator_no_overflow_tables
 #print axioms Ymq.C13.accumulator_spec_large
 #print axioms Ymq.C13.accumulator_no_overflow_new
-#print axioms Ymq.C13.accumulator_spec_partial
+#print axioms Ymq.C13.accumulator_spec
+#print axioms Ymq.C13.accumulator_no_overflow
+#print axioms Ymq.C13.accumulator_spec_hits
 #print axioms Ymq.C13.accumulator_overflow_iff
 #print axioms Ymq.C13.accumulator_overflow_witness
 #print axioms Ymq.C13.accumulator_no_overflow_small
-#print axioms Ymq.C13.accumulator_no_overflow_partial
+#print axioms Ymq.C13.accumulator_no_overflow_hits
 #print axioms Ymq.C13.smooths_threshold_spec
 #print axioms Ymq.C13.smooth_candidate_reported
 #print axioms Ymq.C13.table_bucket_exact
